@@ -82,3 +82,10 @@ reg("C10",
     level_note="Trusted: numpy. Tolerances 1e-9 (float64) / 3e-5 (float32 and the float32 peak statistics). Degenerate spectra (energy in fewer than two frequencies or directions holding 1 % each), discrete ties and range edges within rounding are inconclusive.",
     rule="case = (relation x statistic x dtype x nd x spectrum class), bounds: (bound x dtype x nd x nf x class), scale_by_hs: (expression x dtype x active ranges x in/out of range); distinct = distinct keys",
     must_observe=["scaling:hs", "scaling:uss", "rotation:dm", "rotation:dp", "rotation:tm01", "bounds", "scale_by_hs"])
+
+reg("C18",
+    technique="runtime history monitor: observed operation after a seeded random history vs the same operation on a freshly constructed object in a forked child of an import-only server process (fresh library state); identical() comparison",
+    level_text="Random histories (accessor calls, in-place edits of efth/dir/freq, watershed partitions on other, transposed and equal-size grid shapes, unknown statistic names, attribute-table lookups, readers) are executed on a Dataset or DataArray in one process; the observed operation on the edited object must return an object identical (values, coords, names, attrs) to what a freshly built object with the same contents returns in a process that has only imported the library. A probe also compares the Dataset accessor with the accessor of its efth variable after the history. Held = on the histories observed.",
+    level_note="Trusted: fork() of a process that imported wavespectra and called nothing as the definition of 'fresh state'; xarray.identical as equality. Plain (non-sanitized) build so that both processes run the same binary.",
+    rule="case = (Dataset|DataArray x observed operation x set of history step kinds); distinct = distinct keys; non-trivial = history has >= 1 step and both processes returned",
+    must_observe=["history", "dataset_vs_efth_accessor"])
